@@ -94,7 +94,7 @@ def bit (b : Bool) (v : UInt8) : UInt8 := if b then v else 0
 def Slave.diagPdu (s : Slave) : Bytes :=
   let b0 : UInt8 := bit (s.state != .dataExch) 0x02 ||| bit s.cfgFault 0x04 ||| bit s.diagPending 0x08
                     ||| bit s.prmFault 0x40
-  let b1 : UInt8 := bit (s.state == .waitPrm) 0x01 ||| 0x04 ||| (if s.state == .waitPrm then 0 else s.prmFlags)
+  let b1 : UInt8 := bit (s.state == .waitPrm) 0x01 ||| 0x04 ||| (if s.state == .waitPrm then 0 else s.prmFlags &&& 0x38)
   [b0, b1, 0, if s.state == .waitPrm then 255 else s.master,
    UInt8.ofNat (s.cfg.ident / 256), UInt8.ofNat (s.cfg.ident % 256)]
   ++ (if s.diagPending then s.extDiag else [])
